@@ -198,7 +198,24 @@ class Helper:
             elif fl is False:
                 out.add('old')
             else:
-                out.add('unknown')
+                # a helper that returns a cache built elsewhere: the roles
+                # of what it returns
+                got = False
+                for g in self.prog.resolve_call(e, func):
+                    if isinstance(g, Func) and not g.is_ctor_call:
+                        k = ('ret', g.qualname)
+                        if k in _seen:
+                            continue
+                        _seen.add(k)
+                        gcfg = self.cfgs.get(g)
+                        for rn in gcfg.nodes:
+                            if rn.kind == 'return' and rn.ast.value is not \
+                                    None and rn.polarity == 'N':
+                                out |= self.expr_roles(
+                                    rn.ast.value, g, rn, roles, _seen)
+                                got = True
+                if not got:
+                    out.add('unknown')
             return out
         if isinstance(e, ast.Attribute):
             for rt in self.prog.type_of(e.value, func):
